@@ -32,6 +32,7 @@ import (
 type c26Res struct {
 	Role, Chain, End string
 	PolicyWritable   bool
+	AllowlistChurn   bool   // after the first swap ended the operator added the peer to the allowlist and removed it again
 	Final            string // final state of the first swap
 	SuspEffect       bool   // AddToSuspiciousPeerList was called for the peer
 	InFile           bool   // the policy file has the line suspicious_peers=<peer>
@@ -196,6 +197,12 @@ func c26Run(seed uint64, idx int, role, chain, end string, writable bool, dir st
 	if sc.held != nil {
 		res.Final = string(sc.held.Current)
 	}
+	if writable && chain == "lbtc" {
+		// an unrelated policy edit about the same peer: a quarantine has to survive it
+		res.AllowlistChurn = true
+		pol.AddToAllowlist(sc.peer)
+		pol.RemoveFromAllowlist(sc.peer)
+	}
 	rec.mu.Lock()
 	for _, a := range rec.added {
 		if a == sc.peer {
@@ -343,7 +350,7 @@ func init() {
 			json.Unmarshal(js, &jm)
 			jm["scenario"] = i
 			cf.Add(term, fmt.Sprintf("%s|%s|%s|%v", res.Role, res.Chain, res.End, res.PolicyWritable), true,
-				fmt.Sprintf("%s/end=%s/writable=%v", res.Role, res.End, res.PolicyWritable), jm)
+				fmt.Sprintf("%s/end=%s/writable=%v/allowlist_churn=%v", res.Role, res.End, res.PolicyWritable, res.AllowlistChurn), jm)
 		}
 		if skipped > len(results)/2 {
 			return fmt.Errorf("c26: %d of %d scenarios did not run", skipped, len(results))
